@@ -186,6 +186,46 @@ impl Sandbox {
         sb
     }
 
+    /// an inert value used only to move a real sandbox in and out of a struct
+    pub fn placeholder() -> Sandbox {
+        Sandbox {
+            root: PathBuf::from("/nonexistent-gaiv-placeholder"),
+            home: PathBuf::from("/nonexistent-gaiv-placeholder/home"),
+            mode: Mode::Plain,
+            clock: 0,
+            env_extra: BTreeMap::new(),
+            step_timeout: Duration::from_secs(120),
+            keep: true,
+            log: Vec::new(),
+            log_enabled: false,
+            stderr_capture: None,
+        }
+    }
+
+    /// A byte copy of `src` (whole case directory) as a new sandbox with the same
+    /// mode, clock and environment.
+    pub fn fork_from(src: &Sandbox) -> Sandbox {
+        let n = CASE_SEQ.fetch_add(1, Ordering::SeqCst);
+        let root = scratch_root().join(format!("c{}", n));
+        let _ = std::fs::remove_dir_all(&root);
+        copy_tree(&src.root, &root).unwrap_or_else(|e| {
+            mark_inconclusive(&format!("scratch copy failed: {e}"));
+            panic!("scratch copy failed: {e}");
+        });
+        Sandbox {
+            home: root.join("home"),
+            root,
+            mode: src.mode,
+            clock: src.clock,
+            env_extra: src.env_extra.clone(),
+            step_timeout: src.step_timeout,
+            keep: src.keep,
+            log: Vec::new(),
+            log_enabled: src.log_enabled,
+            stderr_capture: None,
+        }
+    }
+
     pub fn write_git_ai_config(&self, cfg: &serde_json::Value) {
         std::fs::write(
             self.home.join(".git-ai").join("config.json"),
